@@ -38,7 +38,7 @@ def any_session(c, version, with_decryptor):
     return c.obj(SE, **attrs), dec
 
 
-@harness(["C03", "C13"], "robust.tls_record", functions=[SE + ".get_tls_records", SE + ".handle_tls_record", SE + ".handle_tls_handshake_record",
+@harness(["C03", "C13", "C07"], "robust.tls_record", functions=[SE + ".get_tls_records", SE + ".handle_tls_record", SE + ".handle_tls_handshake_record",
                                                          SE + ".handle_handshake_finished", SE + ".handle_tls_client_hello", SE + ".handle_tls_server_hello",
                                                          SE + ".handle_alert", SE + ".handle_tls_13_application_record",
                                                          SE + ".handle_decrypted_tls_13_handshake_record", SE + ".handle_tls_application_record",
@@ -91,6 +91,10 @@ def h_record(c, rtype, version, with_decryptor):
         # nothing but (plaintext-from-the-decryptor, the record, the direction) is ever exported for application data
         for e in traffic:
             c.ensure("export.entry_shape", isinstance(e, tuple) and len(e) == 3 and e[1] is rec_out.value and c.same_object(e[2], isserver))
+    # C07: whatever is exported for a record (application data, or with -a the record itself) is attributed to the direction the record
+    # arrived in - the direction get_tls_records established from the packet's endpoints - and to nothing the record object itself claims
+    for e in traffic[before:]:
+        c.ensure("export.direction_is_the_arrival_direction", isinstance(e, tuple) and len(e) == 3 and c.same_object(e[2], isserver))
     c.cover("returned")
 
 
